@@ -32,6 +32,8 @@ var (
 
 // hostile returns a "dirty" value of type t, or ok=false if the type is not supported.
 func hostile(t reflect.Type, variant int) (v reflect.Value, ok bool) {
+	pcFlag := variant&4 != 0 // callbacks without results panic (operations named "...!panic")
+	variant &= 3
 	switch t {
 	case tErr:
 		return reflect.ValueOf(errors.New("dirty-error")).Convert(t), true
@@ -100,8 +102,13 @@ func hostile(t reflect.Type, variant int) (v reflect.Value, ok bool) {
 		m.SetMapIndex(k, e)
 		return m, true
 	case reflect.Func:
-		// a no-op function returning zero values
+		// a no-op function returning zero values; with panicCallbacks set (operations named "...!panic") a callback
+		// without results panics instead - an application callback may do that, and a recovery middleware catches it
+		pc := pcFlag && t.NumOut() == 0
 		f := reflect.MakeFunc(t, func(args []reflect.Value) []reflect.Value {
+			if pc {
+				panic("verif: the application's callback panics")
+			}
 			out := make([]reflect.Value, t.NumOut())
 			for i := range out {
 				out[i] = reflect.Zero(t.Out(i))
@@ -125,6 +132,11 @@ func hostile(t reflect.Type, variant int) (v reflect.Value, ok bool) {
 
 // callMethod calls obj.<name> with hostile arguments. It returns false if an argument type is unsupported.
 func callMethod(obj interface{}, name string) (called bool, panicked interface{}) {
+	flag := 0
+	if strings.HasSuffix(name, "!panic") {
+		name = strings.TrimSuffix(name, "!panic")
+		flag = 4
+	}
 	m := reflect.ValueOf(obj).MethodByName(name)
 	if !m.IsValid() {
 		return false, nil
@@ -134,7 +146,7 @@ func callMethod(obj interface{}, name string) (called bool, panicked interface{}
 	for i := 0; i < mt.NumIn(); i++ {
 		pt := mt.In(i)
 		if mt.IsVariadic() && i == mt.NumIn()-1 {
-			e, ok := hostile(pt.Elem(), 1)
+			e, ok := hostile(pt.Elem(), 1|flag)
 			if !ok {
 				return false, nil
 			}
@@ -145,7 +157,7 @@ func callMethod(obj interface{}, name string) (called bool, panicked interface{}
 		if i > 0 {
 			variant = 1
 		}
-		a, ok := hostile(pt, variant)
+		a, ok := hostile(pt, variant|flag)
 		if !ok {
 			return false, nil
 		}
